@@ -14,6 +14,12 @@ CHECKS = {
  "C12": dict(cat="exploration", tech="deterministic simulation with the scheduler as the subject (PRNG-chosen pool size and task order per run), naive-definition oracle", ref="DESIGN.md 4/C12",
    text="Every MSM, FFT and domain-algebra entry point is executed under a drawn pool size (1..64, including pools larger than the input) and task order and compared with its naive definition: all MSM lengths 0..70 for all five MSM entry points, eval_polynomial and parallelize at all lengths 0..64, then sampled sizes up to 2^12 crossing the window switches (4, 32, e^9), FFT sizes 2^0..2^12 over scalars and 2^0..2^6 over G1, domains k=1..10 with quotient degrees 1..8, rotations -3..3, l_i ranges with negative and beyond-n indices.",
    note="Naive definitions use the library's own field and single-point group operations (C10/C11 out of scope); blst's internal pool is disabled, its real single-threaded Pippenger runs; task-order permutation exposes arrival-order dependence, not sub-task data races (there is no shared mutable state in these sections)."),
+ "C14": dict(cat="fault_enumeration", tech="deterministic simulation of the opening protocol's two parties with channel faults on the proof and misdelivery faults on the shared query set; schoolbook-evaluation oracle", ref="DESIGN.md 4/C14",
+   text="Query sets (every assignment pattern of <= 3 points to <= 3 polynomials - <= 4 in thorough - then sampled sets of up to 12 polynomials x 5 points, with zero / constant / low-degree / identical polynomials, chopped commitments of 2..4 pieces, shared points, shuffled query order) are opened by the real prover under a drawn schedule; the untouched opening must verify and every single fault - each claimed evaluation, evaluation point, commitment or commitment piece on the verifier side, each element of the opening proof replaced by valid and invalid encodings, truncations, appended bytes - must be rejected; a repeated (commitment, point) pair must be refused with DuplicatedQuery by both parties.",
+   note="Soundness error ignored; a changed evaluation point on a constant polynomial is skipped (the claim stays true and the honest proof is identical); sizes k=2..7."),
+ "C15": dict(cat="exploration", tech="deterministic simulation of a batch verifier receiving honest and faulted deliveries (corruption, misdelivery, duplication, reordering, empty and length-mismatched batches); single-verifier oracle", ref="DESIGN.md 4/C15",
+   text="Batches of 0..6 deliveries over two standard-library relations of different size - honest proofs from a pool, or members faulted by a proof bit flip, a wrong / extra / missing public input or the wrong key, in drawn order with repetitions - are given to zk_stdlib::batch_verify, Guard::batch_verify, DualMSM scale/add_msm/check and the off-circuit Accumulator (from_dual_msm, accumulate, collapse, check, with both keys' fixed bases); the verdict must equal the conjunction of the single verifier's verdicts, and empty or length-mismatched batches must return a value.",
+   note="Two relations (Poseidon k=6, arithmetic) with four honest proofs each; the random-linear-combination soundness error is ignored; Accumulator::accumulate is exercised on >= 1 accumulators."),
  "C16": dict(cat="fault_enumeration", tech="deterministic simulation with storage/channel faults (truncation at every byte, all 256 values of every header byte, bit flips, splices, appended and random bytes, short reads, EINTR) on every verifier-facing decoder, in rlimited child processes under a counting allocator", ref="DESIGN.md 4/C16",
    text="Every verifier-facing decoder (MidnightVK, ZkStdLibArch, proofs VerifyingKey, verifier parameters, IR programs as JSON and bincode, proof bytes) is fed corrupted encodings; the outcome must be Ok or Err - never a panic, abort, stack overflow, hang or a single allocation above 16 MiB + 64 x input - every key that decodes must then verify proofs without panicking, and checked formats must re-encode to the bytes they consumed with all points on the curve (in the subgroup for compressed points). Truncation points and header bytes are enumerated, body corruption is sampled.",
    note="Fixtures: a Poseidon standard-library relation, an arithmetic relation, one generated circuit, a 10-instruction IR program; proving keys and full parameter sets are exercised and reported only (counters in the evidence); RawBytesUnchecked excluded as the property states."),
